@@ -212,8 +212,36 @@ def _shifted_parents(repo, fi, value):
     return "UNDECIDED", f"offset is {O.short(80)}"
 
 
+def _cell_branch_edges(repo, col, R):
+    """Cell.__init__: branch k (k >= 1; branch 0 is the root) is the child of comb_parents[k]: parent column = comb_parents[1:], child
+    column = arange(1, number of branches) -- the same start, up to the number of branches."""
+    fi = repo.method("Cell", "__init__")
+    ex = idx.expander(repo, fi)
+    be = [s_ for s_ in ex.stores if s_.kind == "attr" and s_.key.name == "branch_edges"]
+    if not be:
+        col.unk(R, fi, "Cell: branch_edges pairs branch k with comb_parents[k]", "store not found", node=fi.node)
+        return
+    v = be[-1].value
+    kv = {k.args[0].name: k.args[1] for k in T.find_all(v, lambda x: x.op == "kv") if k.args[0].op == "const"}
+    kv.update({k: t_ for d_ in T.find_all(v, lambda x: x.op == "call" and x.name == "dict") for k, t_ in d_.kw.items()})
+    par, ch = kv.get("parent_branch_index"), kv.get("child_branch_index")
+    ok, why = False, f"columns {sorted(kv)}"
+    if par is not None and ch is not None:
+        cut = par.args[1] if (par.op == "sub" and par.args[1].op == "slice") else None
+        rng = ch if (ch.op == "mcall" and ch.name == "arange") else None
+        if cut is not None and rng is not None:
+            lo = cut.args[0]
+            ra = [a_ for a_ in rng.args if a_.op != "free"]
+            nb = lambda t: T.find(t, lambda x: (x.op == "attr" and x.name == "total_nbranches") or (x.op == "call" and x.name == "len")) is not None
+            ok = lo.op == "const" and lo.name == 1 and cut.args[1].op == "const" and cut.args[1].name is None and \
+                len(ra) == 2 and ra[0].op == "const" and ra[0].name == 1 and nb(ra[1]) and ra[1].op != "binop"
+            why = f"parent column {par.short(50)}, child column {ch.short(50)}"
+    col.check(ok, R, fi, "Cell: branch_edges pairs branch k with comb_parents[k] for k = 1 .. nbranches-1", "comb_parents[1:], arange(1, total_nbranches)", why, node=be[-1].node)
+
+
 def _offsets(repo, col):
     R = "R-C12-offsets"
+    _cell_branch_edges(repo, col, R)
     fi = repo.method("Network", "__init__")
     ex = idx.expander(repo, fi)
     # branch_edges pairs every branch k that has a parent with that parent: parent = comb_parents[mask], child = where(mask)[0], ONE mask
